@@ -28,7 +28,7 @@ open Flute Flute.Recv
 structure DState where
   st : Option (State Mini.Obj) := none
   /-- the same receiver with the full object model `ObjRecv` (`RecvFull.lean`): must print the same -/
-  st2 : Option (State Full.Any) := none
+  st2 : Option (State (Full.Any Full.params0)) := none
   dead : Bool := false
 
 def init : DState := {}
@@ -166,7 +166,7 @@ def showProbe {σ : Type} (s : State σ) (fdtIdOf : σ → Option Nat) : String 
   s!"fc={s.fdtCurrent.length}:{commaNat (s.fdtCurrent.map (·.fdtId))} fr={s.fdtReceivers.length} cp={s.completed.length} fb={fb} att={if att.isEmpty then "-" else ",".intercalate att}"
 
 def fdtIdMini (o : Mini.Obj) : Option Nat := o.fdtId
-def fdtIdFull : Full.Any → Option Nat
+def fdtIdFull : (Full.Any Full.params0) → Option Nat
   | .inl m => m.fdtId
   | .inr f => f.st.fdtId
 
@@ -179,7 +179,7 @@ def runOp (d : DState) (s : State Mini.Obj) (op : Op) : DState × String :=
     match d.st2 with
     | none => ({ d with st := some s' }, line)
     | some t =>
-      match Recv.step Full.iface t op with
+      match Recv.step (Full.iface Full.params0) t op with
       | .error _ => ({ d with st := some s', st2 := none }, line ++ " XMODEL:PANIC")
       | .ok (t', r2, evs2) =>
         let line2 := showOut t' (showRes r2) evs2
